@@ -164,8 +164,7 @@ def check_props(props_rel):
     theorems = re.findall(r"^\s*(?:Theorem|Example)\s+([A-Za-z0-9_']+)", src, re.M)
     bad_proofs = []
     # property files may only close proofs with `exact` (plus vm_compute witnesses for refutations/examples)
-    with Lock("coq"):
-        rc, out, dt = run(["coqc", "-Q", ".", "L4", "-w", "-notation-overridden,-deprecated-hint-without-locality,-deprecated-instance-without-locality", props_rel], cwd=COQ, timeout=600)
+    rc, out, dt = run(["coqc", "-Q", ".", "L4", "-w", "-notation-overridden,-deprecated-hint-without-locality,-deprecated-instance-without-locality", props_rel], cwd=COQ, timeout=600)
     closed = len(re.findall(r"Closed under the global context", out))
     axioms = []
     for m in re.finditer(r"Axioms:\n((?:.+\n)+?)(?=\n|Closed|\Z)", out):
@@ -179,6 +178,13 @@ def check_props(props_rel):
             discharged = max(0, len(re.findall(r"^\s*(?:Theorem|Example)\s+", before, re.M)) - 1)
     return {"ok": rc == 0, "theorems": theorems, "discharged": discharged, "closed": closed,
             "axioms": axioms, "log": out[-3000:], "secs": dt}
+
+
+def check_props_many(files):
+    """check_props for several property files at once (they write distinct .vo files)."""
+    with Lock("coq"):
+        with concurrent.futures.ThreadPoolExecutor(max_workers=min(6, max(1, len(files)))) as ex:
+            return list(ex.map(check_props, files))
 
 
 # ----------------------------------------------------------------------------- Go engines
